@@ -3,6 +3,10 @@ C04, sparse class: a region read that returns a tensor (`subdims` + `tt_renumber
 -/
 import PyttbModel.Lemmas.MutArraySparseRegion
 import PyttbModel.Lemmas.EraseDups
+set_option linter.unusedSimpArgs false
+set_option linter.unusedVariables false
+set_option linter.unusedSectionVars false
+
 namespace Pyttb
 
 variable {α : Type}
@@ -260,7 +264,7 @@ theorem pySlice_nodup {len : Nat} {a b c : Option Int} {l : List Nat} (h : pySli
     · cases h
       exact List.Nodup.sublist List.filter_sublist List.nodup_range
     · cases h
-      exact List.nodup_reverse.2 (List.Nodup.sublist List.filter_sublist List.nodup_range)
+      exact ((List.reverse_perm _).nodup_iff).2 (List.Nodup.sublist List.filter_sublist List.nodup_range)
 
 /-- A read key of the proved fragment: as many elements as modes; integers inside
 `-extent .. extent-1`; slices that select at least one index; index lists that are
@@ -311,7 +315,7 @@ theorem read_resolve (s : List Nat) (parts : List RPart) (h : readKeyOk s parts 
           · simp [MArr.keptShape, keptLens, RPart.isInt] at i5 ⊢; exact i5
           · exact ⟨fun _ => ⟨_, rfl⟩, fun hc => by simp [RPart.isInt] at hc, fun hc => by simp [RPart.isFullSlice] at hc, i6⟩
           · simp [Sparse.keptShapeOf, keptLens, RPart.isInt, i7]
-          · simp [RPart.listBeyond, i8]
+          · simp only [List.zip_cons_cons, List.any_cons, RPart.listBeyond, Bool.false_or]; exact i8
           · simp [keptLens, RPart.isInt, i9]
           · simp [RPart.isInt, i10]
         · have hx : (0 : Int) ≤ i := by omega
@@ -326,7 +330,7 @@ theorem read_resolve (s : List Nat) (parts : List RPart) (h : readKeyOk s parts 
           · simp [MArr.keptShape, keptLens, RPart.isInt] at i5 ⊢; exact i5
           · exact ⟨fun _ => ⟨_, rfl⟩, fun hc => by simp [RPart.isInt] at hc, fun hc => by simp [RPart.isFullSlice] at hc, i6⟩
           · simp [Sparse.keptShapeOf, keptLens, RPart.isInt, i7]
-          · simp [RPart.listBeyond, i8]
+          · simp only [List.zip_cons_cons, List.any_cons, RPart.listBeyond, Bool.false_or]; exact i8
           · simp [keptLens, RPart.isInt, i9]
           · simp [RPart.isInt, i10]
       | slice a b c =>
@@ -357,7 +361,7 @@ theorem read_resolve (s : List Nat) (parts : List RPart) (h : readKeyOk s parts 
               have := Except.ok.inj hl
               rw [← this]; simp
             · rfl
-          · simp [RPart.listBeyond, i8]
+          · simp only [List.zip_cons_cons, List.any_cons, RPart.listBeyond, Bool.false_or]; exact i8
           · simp [keptLens, RPart.isInt, i9]
           · simp [RPart.isInt, i10]
         | .ok [], h1' => simp only [hl] at h1'; cases h1'
@@ -386,13 +390,146 @@ theorem read_resolve (s : List Nat) (parts : List RPart) (h : readKeyOk s parts 
         · simp [MArr.keptShape, keptLens, RPart.isInt] at i5 ⊢; exact i5
         · exact ⟨fun hc => by simp [RPart.isInt] at hc, fun _ => hnod, fun hc => by simp [RPart.isFullSlice] at hc, i6⟩
         · simp [Sparse.keptShapeOf, keptLens, RPart.isInt, RPart.isFullSlice, i7]
-        · simp only [List.zip_cons_cons, List.any_cons, RPart.listBeyond, i8, Bool.or_false]
-          rw [List.any_eq_false]
-          intro x hx
-          have := hlt x hx
-          simp; omega
+        · have hb : (is.any fun x => decide (x ≥ e)) = false := by
+            rw [List.any_eq_false]
+            intro x hx
+            have := hlt x hx
+            simp; omega
+          rw [List.zip_cons_cons, List.any_cons, i8]
+          simp only [RPart.listBeyond, hb, Bool.or_false]
         · have : is.length ≠ 0 := by intro hc; exact hne (List.eq_nil_of_length_eq_zero hc)
           simp [keptLens, RPart.isInt, i9, this]
         · simp [RPart.isInt, i10]
+
+/-! ### the read -/
+
+theorem keptLens_nil_iff (ps : List RPart) (ls : List (List Nat)) (h : modesOk2 ps ls) :
+    keptLens ps ls = [] ↔ ps.all RPart.isInt = true := by
+  induction ps generalizing ls with
+  | nil => cases ls <;> simp [keptLens]
+  | cons p ps ih =>
+    cases ls with
+    | nil => exact absurd h (by simp [modesOk2])
+    | cons l ls =>
+      have ih' := ih ls h.2.2.2
+      by_cases hp : p.isInt = true
+      · simp [keptLens, hp, ih']
+      · have hp' : p.isInt = false := by simpa using hp
+        simp [keptLens, hp']
+
+theorem zip_map_left' {β γ δ : Type} (l : List β) (l' : List γ) (f : β → δ) :
+    (l.map f).zip l' = (l.zip l').map fun e => (f e.1, e.2) := by
+  induction l generalizing l' with
+  | nil => rfl
+  | cons a l ih => cases l' with
+    | nil => rfl
+    | cons b l' => simp [ih]
+
+section rt
+variable [AddMonoid α] [DecidableEq α]
+
+/-- the stored entries of the region: duplicate-free, all in the region, and under a
+subscript of the region they hold the cell -/
+theorem sel_props {S : Sparse α} (hS : S.WF) (idx : List (List Nat)) :
+    let sel := S.takeAt (if S.subs.isEmpty then [] else S.subdims idx)
+    sel.subs.length = sel.vals.length ∧ sel.subs.Nodup ∧ (∀ r ∈ sel.subs, Sparse.inRegionB idx r = true) ∧
+    ∀ i, Sparse.inRegionB idx i = true → kvSum (sel.subs.zip sel.vals) i = S.get i := by
+  have hloc : (if S.subs.isEmpty then [] else S.subdims idx) =
+      (List.range S.subs.length).filter fun k => Sparse.inRegionB idx (S.subs.getD k []) := by
+    split
+    · next he =>
+      have : S.subs = [] := by simpa using he
+      rw [this]; rfl
+    · rfl
+  simp only [hloc, Sparse.takeAt]
+  have hnod : ((List.range S.subs.length).filter fun k => Sparse.inRegionB idx (S.subs.getD k [])).Nodup :=
+    List.Nodup.sublist List.filter_sublist List.nodup_range
+  have hlt : ∀ k ∈ (List.range S.subs.length).filter fun k => Sparse.inRegionB idx (S.subs.getD k []),
+      k < S.subs.length := fun k hk => List.mem_range.1 (List.mem_filter.1 hk).1
+  refine ⟨by simp, ?_, ?_, ?_⟩
+  · apply nodup_map_on _ hnod
+    intro x hx y hy hxy
+    rw [getD_eq_getElem_nil _ _ (hlt x hx), getD_eq_getElem_nil _ _ (hlt y hy)] at hxy
+    exact (List.getElem_inj hS.nodup).1 hxy
+  · intro r hr
+    obtain ⟨k, hk, rfl⟩ := List.mem_map.1 hr
+    exact (List.mem_filter.1 hk).2
+  · intro i hi
+    rw [zip_map_map, kvSum_positions S.subs hS.nodup (fun k => S.vals.getD k 0) _ hnod hlt i]
+    show _ = kvSum (S.subs.zip S.vals) i
+    rw [kvSum_zip_eq S.subs S.vals hS.nodup hS.len i]
+    by_cases hs : i ∈ S.subs
+    · have hk0 : S.subs.idxOf i < S.subs.length := List.idxOf_lt_length_iff.2 hs
+      have hgetD : S.subs.getD (S.subs.idxOf i) [] = i := by
+        rw [getD_eq_getElem_nil _ _ hk0]; exact List.getElem_idxOf hk0
+      have : S.subs.idxOf i ∈ (List.range S.subs.length).filter fun k => Sparse.inRegionB idx (S.subs.getD k []) := by
+        rw [List.mem_filter, hgetD]; exact ⟨List.mem_range.2 hk0, hi⟩
+      rw [if_pos ⟨hs, this⟩, if_pos hs]
+    · have : ¬ (i ∈ S.subs ∧ S.subs.idxOf i ∈
+          (List.range S.subs.length).filter fun k => Sparse.inRegionB idx (S.subs.getD k [])) := fun hc => hs hc.1
+      rw [if_neg this, if_neg hs]
+
+/-- A region read that keeps at least one mode (a slice or an index list in the key)
+returns the tensor of the addressed cells, in the order of the kept modes. -/
+theorem Sparse.getItem_tensor {S : Sparse α} {m : MArr α} (h : SRel S m) (parts : List RPart)
+    (hne : parts ≠ []) (hk : readKeyOk S.shape parts = true) (hnot : parts.all RPart.isInt = false) :
+    (S.getItem (.region parts)).map SpReadOut.toReadOut = m.read (.region parts) := by
+  obtain ⟨ps, idx, rs, i1, i2, i3, i4, i5, i6, i7, i8, i9, i10⟩ := read_resolve S.shape parts hk
+  have hpl : parts.length = S.shape.length := by
+    have := regionParts_length i3
+    have h2 := congrArg List.length (regionParts_read_shape i3)
+    simp only [List.length_map] at h2
+    omega
+  have hemp : parts.isEmpty = false := by cases parts <;> simp_all
+  have hall : ps.all RPart.isInt = false := by rw [i10]; exact hnot
+  have hks : keptLens ps idx ≠ [] := by
+    intro hc
+    have := (keptLens_nil_iff ps idx i6).1 hc
+    rw [hall] at this; cases this
+  -- specification side
+  have hspec : m.read (.region parts) =
+      .ok (.tensor ⟨keptLens ps idx, (outerF idx).map m.get⟩) := by
+    simp only [MArr.read, hemp, Bool.false_eq_true, ↓reduceIte, ← h.shape, i3, bind, Except.bind, i4, i5]
+  rw [hspec]
+  -- model side
+  simp only [Sparse.getItem, hpl, ne_eq, not_true_eq_false, ↓reduceIte, i1, i2, bind, Except.bind]
+  unfold Sparse.regionRead
+  simp only [i8, Bool.false_eq_true, and_false, ↓reduceIte, hall, i7, i9]
+  obtain ⟨s1, s2, s3, s4⟩ := sel_props h.wf idx
+  generalize hsel : S.takeAt (if S.subs.isEmpty then [] else S.subdims idx) = sel at s1 s2 s3 s4 ⊢
+  -- both branches give the same tensor
+  have hboth : (if sel.subs.isEmpty then (Except.ok (SpReadOut.tensor ⟨keptLens ps idx, [], []⟩) : Except Reject (SpReadOut α))
+      else .ok (.tensor ⟨keptLens ps idx, sel.subs.map (Sparse.renumberRow ps idx), sel.vals⟩)) =
+      .ok (.tensor ⟨keptLens ps idx, sel.subs.map (Sparse.renumberRow ps idx), sel.vals⟩) := by
+    split
+    · next he =>
+      have h1 : sel.subs = [] := by simpa using he
+      have h2 : sel.vals = [] := by
+        have := s1; rw [h1] at this
+        exact List.eq_nil_of_length_eq_zero this.symm
+      rw [h1, h2]; rfl
+    · rfl
+  rw [hboth]
+  simp only [Except.map, SpReadOut.toReadOut]
+  congr 2
+  -- the dense form of the result
+  rw [Sparse.full_eq]
+  simp only [Dense.ofFn]
+  congr 1
+  rw [outerF_eq_decode ps idx (modesOk_of_modesOk2 i6), List.map_map]
+  apply List.map_congr_left
+  intro j hj
+  have hjb : InBounds (keptLens ps idx) j := mem_allSubs.1 hj
+  obtain ⟨d1, d2⟩ := decode_props ps idx i6 j hjb
+  simp only [Function.comp]
+  show kvLast ((sel.subs.map (Sparse.renumberRow ps idx)).zip sel.vals) j = _
+  rw [zip_map_left']
+  have hkeys : (sel.subs.zip sel.vals).map (·.1) = sel.subs := List.map_fst_zip (Nat.le_of_eq s1)
+  rw [kvLast_map_key (sel.subs.zip sel.vals) (Sparse.renumberRow ps idx) (decodeRow ps idx)
+    (by rw [hkeys]; exact s2)
+    (by rw [hkeys]; intro r hr; exact encode_props ps idx i6 r (s3 r hr)) j d2]
+  rw [kvLast_eq_kvSum _ _ (by rw [hkeys]; exact s2), s4 _ d1, h.cell]
+
+end rt
 
 end Pyttb
